@@ -17,9 +17,9 @@ import (
 // The grammar itself (nesting, commas, colons) is NOT checked here: that is done by the automaton
 // written in TLA+ on these tokens.
 type Lexed struct {
-	Tokens []string    `json:"tokens"`
-	Keys   []KeyAt     `json:"keys"` // pre-order (depth, key) of every object member name; key "?" if not plain ASCII
-	Strs   []string    `json:"-"`
+	Tokens []string `json:"tokens"`
+	Keys   []KeyAt  `json:"keys"` // pre-order (depth, key) of every object member name; key "?" if not plain ASCII
+	Strs   []string `json:"-"`
 }
 
 // KeyAt is one object member name with its nesting depth, marshalled as [depth, "name"].
